@@ -48,6 +48,9 @@ Definition step_mx (s : smx) (o : line) : smx * list bytes :=
     let '(ok, ps') := headerver_match (arg 1 o) (arg 2 o) vs accept (if parsed_ok then Some (pairs kv) else None) ps in
     (s, bool_field ok :: flat_params ps')
   else if hunsup s then (s, [bs "unsup"])
+  (* strings.ToLower on a domain is Unicode-aware (and repairs invalid UTF-8): non-ASCII domains are outside the model *)
+  else if (beqb op (bs "hadd") || beqb op (bs "hdel")) && negb (forallb (fun c => c <? 128) (arg 1 o)) then
+    (s <| hunsup := true |>, [bs "unsup"])
   else if beqb op (bs "hadd") then
     match hosts_add (htree s) (arg 1 o) with
     | Ok t => (s <| htree := t |>, [bs "ok"])
@@ -60,6 +63,8 @@ Definition step_mx (s : smx) (o : line) : smx * list bytes :=
     | Unsup => (s <| hunsup := true |>, [bs "unsup"])
     | r => (s, res_obs r)
     end
+  else if beqb op (bs "hicpt") && ahas (arg 1 o) (hic s) then
+    (s, [bs "panic"; bs "other"])                  (* Interceptors.Add refuses a name that is already registered *)
   else if beqb op (bs "hicpt") then
     (s <| htree := hosts_register (htree s) (arg 1 o) (icpt_of_kind (arg 2 o)) |>
        <| hic := (arg 1 o, icpt_of_kind (arg 2 o)) :: hic s |>, [bs "ok"])
